@@ -18,7 +18,7 @@ LEVEL_TEXT = (
     'DenseNatMap::rewrite re-keys through the (K, V) FromIterator impl. Verdict preservation for '
     'symmetric models is not decided.')
 
-FLOORS = {'C10-R1': 8, 'C10-R2': 2, 'C10-R3': 5, 'C10-R4': 8, 'C10-R5': 1}
+FLOORS = {'C10-R1': 8, 'C10-R2': 2, 'C10-R3': 5, 'C10-R4': 8, 'C10-R5': 2}
 
 REPR = '<actor::model_state::ActorModelState<A, H> as checker::representative::Representative>::representative'
 STATE = 'actor::model_state::ActorModelState'
@@ -404,6 +404,27 @@ def r5_densenatmap(ctx, F):
             if c0 in rw and c1 in rw and comp_of(c0) == '0' and comp_of(c1) == '1':
                 ok = True
     ok = ok and bool(nb.calls_to('Iterator::collect', 'FromIterator::from_iter'))
+    # ... and that is the only way a result is produced: a second construction (a shortcut that leaves the values
+    # in place when a few probed keys did not move) bypasses the re-keying
+    rdefs = [d for d in nb.defs.get(0, []) if d[1] == 'call' or not d[2]['lhs']['p']]
+    only = bool(rdefs) and all(d[1] == 'call' and nb.call_at(d[0]).is_('Iterator::collect', 'FromIterator::from_iter')
+                               for d in rdefs) and len(rdefs) == 1
+    if not only:
+        # the result may be handed through a temporary
+        from taint import origin_calls
+        oc = set()
+        for d in rdefs:
+            if d[1] == 'call':
+                oc.add(nb.call_at(d[0]))
+            elif d[2]['rv']['k'] == 'use':
+                oc |= origin_calls(nb, d[2]['rv']['op'])
+            else:
+                oc.add('other')
+        only = len(oc) == 1 and all(o != 'other' and o.is_('Iterator::collect', 'FromIterator::from_iter') for o in oc)
+    ctx.check(only, rule, 'rekeyed-collect-is-the-only-result', b,
+              good='every result of DenseNatMap::rewrite comes out of the pair collector',
+              bad='DenseNatMap::rewrite has a path that builds its result without collecting (rewritten key, rewritten '
+                  'value) pairs: on that path values keep their old positions although the plan may move their keys')
     ctx.check(ok, rule, 'rekeyed-collect', b,
               good='DenseNatMap::rewrite maps each (k, v) to (rewritten k, rewritten v) and collects pairs '
                    '(the pair FromIterator re-sorts by key)',
